@@ -38,7 +38,9 @@ def main():
             },
             "level_note": m.get("level_note", "Necessary structural conditions only; trusted base: CPython ast, the spverif "
                                 "engine (CFG, dominators, dependence closure, call resolution by class-hierarchy analysis), "
-                                "repository type annotations for receiver typing. Assumptions: " + "; ".join(m.get("assumptions", []))),
+                                "repository type annotations for receiver typing; the normal forms applied to the parsed tree before "
+                                "any rule runs (N-inline of new private helpers, N-alias of locals naming constructor-only fields, "
+                                "positive form of the implementation switch: DESIGN.md 11.11). Assumptions: " + "; ".join(m.get("assumptions", []))),
             "technique": m.get("technique", "static analysis (ast dataflow / control-dependence / call-graph rules)"),
         })
     man = {
@@ -54,7 +56,8 @@ def main():
         "engines": [{"name": "spverif", "path": "/verif/spverif", "serves_properties": [c["property_id"] for c in checks],
                      "kind_free_text": "repo-specific static analyser: ast program model, statement CFG with exceptional edges, "
                                        "dominators/control dependence, may-dependence closure with callee summaries, "
-                                       "typestate, order-abstraction truth tables, fast/fallback pair comparison"}],
+                                       "typestate, order-abstraction truth tables, fast/fallback pair comparison, "
+                                       "normal forms (helper inlining, field aliases), finite decision tables read off the syntax tree"}],
         "checks": checks,
         "not_applicable": na,
         "notes": "Static analysis only: no registered check imports, runs, schedules or fuzzes /repo code. Exit 0 = every "
